@@ -200,6 +200,45 @@ def spy_runs(M, rec, rng, g, n_nets):
             rec.sample({"desc": desc, "pairs": "all ordered pairs of (selected, explicit) in numpy/SX/MX"})
 
 
+def fill_value_engines(M, rec, rng, g, n_nets):
+    """NumPy engines configured with a value (`var_type=<number>`: variables not supplied are filled with it).
+    Several such engines alive at once, one of them selected, an older one passed explicitly: every variable
+    the step creates carries the explicit engine's value, and the default one the selected engine's."""
+    from sym_metanet import engines as E
+
+    NE, CE = drive.engines(M)
+    sh = W.shapes_cycle()
+    for it in range(n_nets):
+        desc = g.all_kinds_network() if it % 3 == 0 else g.network(next(sh))[1]
+        built = D.build(M, desc, D.random_ops(desc, rng))
+        kw = drive.step_pars(g.pars())
+        a, b, c = rng.sample((0.25, 0.5, 1.0, 2.0, 7.5, 20.0), 3)
+        explicit = NE(var_type=a)
+        selected = E.use("numpy", var_type=b) if rng.random() < 0.5 else E.use(NE(var_type=b))
+        later = NE(var_type=c)  # configured after both, never used
+        for who, eng, val in (("explicit", explicit, a), ("selected", None, b), ("explicit", explicit, a)):
+            try:
+                if eng is None:
+                    built.net.step(**kw)
+                else:
+                    built.net.step(engine=eng, **kw)
+            except Exception as e:
+                rec.violation(f"{PROP}:fill-value engines: step with the {who} engine raised {type(e).__name__}", {"exception": repr(e)[:300]})
+                continue
+            rec.count("fill_value_runs")
+            for el in built.elements.values():
+                for grp in (el.states, el.actions, el.disturbances):
+                    for nm, x in (grp or {}).items():
+                        rec.count("fill_value_checks")
+                        if not np.all(np.asarray(x, dtype=float) == val):
+                            rec.violation(f"{PROP}:fill-value engines: a variable created during a step with the {who} engine does not carry that engine's value",
+                                          {"desc": desc, "element": el.name, "variable": nm, "value": np.asarray(x, dtype=float).ravel().tolist()[:4],
+                                           "explicit_value": a, "selected_value": b, "value_of_an_engine_configured_later": c})
+                            break
+        if E.get_current_engine() is not selected:
+            rec.violation(f"{PROP}:fill-value engines: the selection changed", {"desc": desc})
+
+
 def selection_histories(M, rec, rng, n_hist):
     import sym_metanet
     from sym_metanet import engines as E
@@ -328,6 +367,7 @@ def run(M, rec, tier, seed, k, n):
     try:
         selection_histories(M, rec, rng, 300 if tier == "quick" else 10000)
         spy_runs(M, rec, rng, g, 45 if tier == "quick" else 700)
+        fill_value_engines(M, rec, rng, g, 30 if tier == "quick" else 400)
     finally:
         E.use(saved)
 
